@@ -2,7 +2,7 @@
 
    The FULL statement "for every declared 2xx response x content type the handler's decode path delivers a value of
    the annotated type re-encoding to the body / None / the text / the bytes / the stream items" — on the decision
-   model:  forall d, C05_holds d = true  — is FALSE: five classes of counterexample, C05_refuted_F05b,c,f,h,i (F05e and F05g are fixed: C05_fixed_F05e/g).
+   model:  forall d, C05_holds d = true  — is FALSE: four classes of counterexample, C05_refuted_F05b,c,f,i (F05e, F05g, F05h are fixed: C05_fixed_F05e/g/h).
    PARTIAL (what is proved, for every registry and every operation shape, no bound on sizes):
      C05_partial                  primary response, single non-stream JSON content: delivers, given the heuristic agrees
      C05_partial_class            the same with the heuristic hypotheses DISCHARGED for every generated class name
@@ -39,7 +39,7 @@ Proof. exact primary_single_json_class. Qed.
 Print Assumptions C05_partial_class.
 
 Theorem C05_partial_secondary : forall reg o p n r m e ct imported,
-  cprocessed o = Some (p, n) -> m <> n -> find_status m (cothers o) = Some r -> lead2 m = true ->
+  cprocessed o = Some (p, n) -> st_streaming (resolve o) = false -> m <> n -> find_status m (cothers o) = Some r -> lead2 m = true ->
   handler_schema (cr_content r) = Some e -> is_stream r = false -> json_like (c_media e) = true ->
   heuristic_ok reg (c_type e) = true ->
   (needs_structure (c_type e) = true -> deser_direct reg (c_type e) = true /\ imported = true) ->
@@ -54,7 +54,7 @@ Proof. exact primary_nocontent. Qed.
 Print Assumptions C05_partial_nocontent.
 
 Theorem C05_partial_nocontent_2 : forall reg o p n r m ct imported,
-  cprocessed o = Some (p, n) -> m <> n -> find_status m (cothers o) = Some r -> lead2 m = true ->
+  cprocessed o = Some (p, n) -> st_streaming (resolve o) = false -> m <> n -> find_status m (cothers o) = Some r -> lead2 m = true ->
   cr_content r = [] ->
   delivers imported (handle reg o m ct) (ideal false r None) = true.
 Proof. exact secondary_nocontent. Qed.
@@ -100,7 +100,7 @@ Proof. exact json_path_cast_fails. Qed.
 Print Assumptions C05_refuted_F05b_all.
 (* F05c: a secondary 2xx with content never yields the text or the bytes *)
 Theorem C05_refuted_F05c_all : forall reg o p n r m ct imported,
-  cprocessed o = Some (p, n) -> m <> n -> find_status m (cothers o) = Some r -> lead2 m = true ->
+  cprocessed o = Some (p, n) -> st_streaming (resolve o) = false -> m <> n -> find_status m (cothers o) = Some r -> lead2 m = true ->
   cr_content r <> [] ->
   delivers imported (handle reg o m ct) WText = false /\ delivers imported (handle reg o m ct) WBytes = false.
 Proof. exact secondary_never_text_or_bytes. Qed.
@@ -113,23 +113,19 @@ Theorem C05_wildcard_primary : forall reg o w st ct,
 Proof. exact handle_wildcard_primary. Qed.
 Print Assumptions C05_wildcard_primary.
 
-Theorem C05_refuted_F05b : guard_bits d_F05b = [false; true; true; true; true]
+Theorem C05_refuted_F05b : guard_bits d_F05b = [false; true; true; true]
   /\ the_path d_F05b = PCast /\ the_want d_F05b = WJsonTyped (TLib [100;97;116;101;116;105;109;101]) /\ C05_holds d_F05b = false.
 Proof. exact refuted_F05b. Qed.
 Print Assumptions C05_refuted_F05b.
-Theorem C05_refuted_F05c : guard_bits d_F05c = [true; false; true; true; true]
+Theorem C05_refuted_F05c : guard_bits d_F05c = [true; false; true; true]
   /\ the_path d_F05c = PCast /\ the_want d_F05c = WText /\ C05_holds d_F05c = false.
 Proof. exact refuted_F05c. Qed.
 Print Assumptions C05_refuted_F05c.
-Theorem C05_refuted_F05f : guard_bits d_F05f = [true; true; false; true; true]
+Theorem C05_refuted_F05f : guard_bits d_F05f = [true; true; false; true]
   /\ the_path d_F05f = PStreamSse /\ the_want d_F05f = WStreamItems /\ C05_holds d_F05f = false.
 Proof. exact refuted_F05f. Qed.
 Print Assumptions C05_refuted_F05f.
-Theorem C05_refuted_F05h : guard_bits d_F05h = [true; true; true; false; true]
-  /\ module_syntax_ok (d_module d_F05h) = false /\ C05_holds d_F05h = false.
-Proof. exact refuted_F05h. Qed.
-Print Assumptions C05_refuted_F05h.
-Theorem C05_refuted_F05i : guard_bits d_F05i = [true; true; true; true; false]
+Theorem C05_refuted_F05i : guard_bits d_F05i = [true; true; true; false]
   /\ the_annotation d_F05i = [73;116;101;109] /\ the_want d_F05i = WJsonTyped (TClass [67;97;116]) /\ C05_holds d_F05i = false.
 Proof. exact refuted_F05i. Qed.
 Print Assumptions C05_refuted_F05i.
@@ -140,6 +136,20 @@ Print Assumptions C05_fixed_F05e.
 Theorem C05_fixed_F05g : c05_guard d_F05g = true /\ (exists c, the_path d_F05g = PStructure c) /\ C05_holds d_F05g = true.
 Proof. exact fixed_F05g. Qed.
 Print Assumptions C05_fixed_F05g.
+Theorem C05_fixed_F05h : c05_guard d_F05h = true /\ C05_holds d_F05h = true
+  /\ the_path d_F05h_202 = PEndIter /\ c05_guard d_F05h_202 = true /\ C05_holds d_F05h_202 = true.
+Proof. exact fixed_F05h. Qed.
+Print Assumptions C05_fixed_F05h.
+(* F05h fixed in general: no operation shape makes a generated method an async generator with `return <value>` *)
+Theorem C05_module_syntax_always : forall ops, module_syntax_ok ops = true.
+Proof. exact module_syntax_always. Qed.
+Print Assumptions C05_module_syntax_always.
+Theorem C05_partial_nocontent_streaming : forall reg o p n r m ct imported,
+  cprocessed o = Some (p, n) -> st_streaming (resolve o) = true -> m <> n ->
+  find_status m (cothers o) = Some r -> lead2 m = true -> cr_content r = [] ->
+  handle reg o m ct = PEndIter /\ delivers imported (handle reg o m ct) (ideal false r None) = true.
+Proof. exact secondary_nocontent_streaming. Qed.
+Print Assumptions C05_partial_nocontent_streaming.
 Theorem C05_guard_nonvacuous :
   c05_guard d_ok = true /\ C05_holds d_ok = true /\ c05_guard d_ok2 = true /\ C05_holds d_ok2 = true
   /\ c05_guard d_ok3 = true /\ the_path d_ok3 = PNone
